@@ -661,6 +661,11 @@ func (h *Sources) getLine(line *core.Line, cur *core.Cursor) (*core.Line, *core.
 		h.skip = false
 		h.Save()
 		h.skip = skip
+
+		// Keep the real cursor position (see Walk): the search string is the text before it.
+		if lh := h.getLineHistory(); lh != nil && len(lh.items) > 0 {
+			lh.items[len(lh.items)-1].pos = h.cursor.Pos()
+		}
 	}
 
 	if line == nil {
